@@ -1574,6 +1574,40 @@ func (w *World) expand(e *Expr, depth int, budget *int, keep func(*ssa.Function)
 		}
 		return &ne
 	}
+	if e.Op == "field" && len(e.Args) == 1 && depth > 0 {
+		// a field of the record an in-scope call hands back: project the field out of the call's summary first — the
+		// record as a whole may hold parts without an origin expression (a marker worked out in a loop) next to fields
+		// that are plainly the call's arguments
+		base, idx := e.Args[0], -1
+		if base.Op == "res" && len(base.Args) == 1 {
+			fmt.Sscan(base.Name, &idx)
+			base = base.Args[0]
+		}
+		if base.Op == "call" && base.Callee != nil && (keep == nil || !keep(base.Callee)) {
+			ne := *base
+			ne.str = ""
+			ne.Args = make([]*Expr, len(base.Args))
+			for i, a := range base.Args {
+				ne.Args[i] = w.expand(a, depth, budget, keep)
+			}
+			if in := w.Inline(&ne); in != nil {
+				if idx >= 0 {
+					if in.Op == "tuple" && idx < len(in.Args) {
+						in = in.Args[idx]
+					} else {
+						in = nil
+					}
+				} else if in.Op == "tuple" {
+					in = nil
+				}
+				if in != nil {
+					if proj := fieldOf(in, e.Name); !(proj.Op == "field" && len(proj.Args) == 1 && proj.Args[0] == in) && !opaque(proj) {
+						return w.expand(proj, depth-1, budget, keep)
+					}
+				}
+			}
+		}
+	}
 	if e.Op == "call" && e.Callee != nil && depth > 0 {
 		// expand arguments first
 		ne := *e
@@ -2503,6 +2537,9 @@ func builtAlts(e *Expr, depth int) ([]*Expr, bool) {
 	case e.Op == "loop" || e.Op == "makeslice" || e.Op == "zero" || e.Op == "const" && e.Name == "nil":
 		return nil, true
 	case e.Op == "call" && e.Name == "builtin:append" && len(e.Args) == 2:
+		if e.Call != nil && elementsAssigned(e.Call) {
+			return nil, false // elements are also updated in place: the appended values are not all the list can hold
+		}
 		base, ok := builtAlts(e.Args[0], depth+1)
 		if !ok {
 			return nil, false
@@ -2540,6 +2577,9 @@ func BuiltSites(e *Expr) ([]ssa.CallInstruction, bool) {
 		case e.Op == "loop" || e.Op == "makeslice" || e.Op == "zero" || e.Op == "const" && e.Name == "nil":
 			return true
 		case e.Op == "call" && e.Name == "builtin:append" && len(e.Args) == 2:
+			if e.Call != nil && elementsAssigned(e.Call) {
+				return false
+			}
 			if !visit(e.Args[0], depth+1) {
 				return false
 			}
@@ -2559,4 +2599,35 @@ func BuiltSites(e *Expr) ([]ssa.CallInstruction, bool) {
 		return nil, false
 	}
 	return out, true
+}
+
+// elementsAssigned: the function containing the append also stores into elements of a slice of the same type
+// (`xs[i].f = v`, `xs[i] = v`): the list is not built by appends alone.
+func elementsAssigned(call ssa.CallInstruction) bool {
+	fn := call.Parent()
+	v := call.Value()
+	if fn == nil || v == nil {
+		return false
+	}
+	want := v.Type().String()
+	for _, b := range fn.Blocks {
+		for _, in := range b.Instrs {
+			st, ok := in.(*ssa.Store)
+			if !ok {
+				continue
+			}
+			a := st.Addr
+			for {
+				if fa, ok := a.(*ssa.FieldAddr); ok {
+					a = fa.X
+					continue
+				}
+				break
+			}
+			if ia, ok := a.(*ssa.IndexAddr); ok && ia.X.Type().String() == want {
+				return true
+			}
+		}
+	}
+	return false
 }
